@@ -8,6 +8,7 @@ from .. import paths
 from ..core import FUNC, call_attr, calls_in, chain, dotted, kwarg, text, walk_local, norm, is_const, const
 
 EXPLANATION = [
+    "C03.lmp-answer-result: the peer's LMP accepted / not-accepted answers settle the pending-command futures with set_result(status) (their done-callbacks read future.result() as a status).",
     'C03.nop-events: Host.on_hci_command_complete_event and on_hci_command_status_event reach on_command_processed only on paths where event.command_opcode is known to be non-zero.',
     'C03.connect-ind-address: Controller.create_le_connection announces in CONNECT_IND the same address expression under which it registers its own Connection.',
     'C03.parse-guard-scope: the try of Controller.on_packet whose handler answers an unparseable command does not contain the dispatch to the command handlers.',
@@ -1316,7 +1317,25 @@ def nop_events(ctx):
         R.check(not reached, rule, f'{HOST}.{name}', 'opcode 0 is not handed to on_command_processed', f'{name} passes an event for opcode 0 (flow control only) to on_command_processed: the caller of the command in flight receives it as its response', p.loc(reached[0]) if reached else p.loc(fn))
 
 
+def lmp_answer_result(ctx):
+    """The futures of classic_pending_commands are read by done-callbacks with `future.result()` as a status code: the peer\'s
+    answer - accepted or not - settles them with set_result(status).  set_exception makes the callback raise inside the
+    event loop, and the completion event it was going to send (Connection Complete with the error, Role Change ...) never
+    reaches the host."""
+    R, p = ctx.r, ctx.p
+    rule = 'C03.lmp-answer-result'
+    fn = p.find(f'{CTRL}.on_lmp_packet')
+    if fn is None:
+        R.bad(rule, f'{CTRL}.on_lmp_packet', 'anchor missing')
+        return
+    settles = [c for c in calls_in(fn) if call_attr(c) in ('set_result', 'set_exception') and dotted(c.func.value) == 'future']
+    bad = [c for c in settles if call_attr(c) == 'set_exception']
+    readers = [c for m_ in [p.modules.get('bumble.controller')] if m_ is not None for c in ast.walk(m_.tree) if isinstance(c, ast.Call) and call_attr(c) == 'result' and dotted(c.func.value) == 'future']
+    R.check(len(settles) >= 2 and not bad and len(readers) >= 2, rule, f'{CTRL}.on_lmp_packet', f'{len(settles)} settle sites use set_result; {len(readers)} callbacks read future.result()', f'`{norm(bad[0])[:60] if bad else ""}`: the done-callbacks read the status with future.result(), which now raises - a procedure the peer refused (Create Connection rejected, role switch not accepted) is never concluded by its completion event', p.loc(bad[0]) if bad else p.loc(fn))
+
+
 RULES = [
+    ('C03.lmp-answer-result', lmp_answer_result),
     ('C03.nop-events', nop_events),
     ('C03.connect-ind-address', connect_ind_address),
     ('C03.parse-guard-scope', parse_guard_scope),
